@@ -20,8 +20,25 @@ def pCds : P (Option (List (Int × Int))) := do
   | "nc" :: rest => set rest; pure none
   | _ => do let bs ← pList pIntPair; pure (some bs)
 
+/-- optional `F f1 … fc`: the reading frames the CDS blocks were given.  The property does not mention them
+    (CDS position = 5'→3' rank in the CDS blocks, amino-acid index = CDS position / 3, whatever the frames), so
+    they are consumed and ignored. -/
+def pFrames (c : Nat) : P Unit := do
+  match (← get) with
+  | "F" :: rest => do
+      set rest
+      let rec go : Nat → P Unit
+        | 0 => pure ()
+        | k+1 => do
+          match (← tok) with
+          | "0" | "1" | "2" => go k
+          | t => throw s!"frame? {t}"
+      go c
+  | _ => pure ()
+
 def pRawTx : P RawTx := do
   let pl ← pPlen; let st ← pStrand; let ex ← pList pIntPair; let cds ← pCds
+  pFrames (cds.map List.length |>.getD 0)
   pure ⟨pl, st, ex, cds⟩
 
 inductive Built where
@@ -172,6 +189,7 @@ def chunkOps : List (String × Op) := [
   ("kd2c", kvecOp fun t _ => okD2C t),
   ("kd2t", kvecOp fun t _ => okD2T t),
   ("kt2d", kvecOp fun t _ => okT2D t),
+  ("kaa", kvecOp fun t _ => okAA t),
   ("kci2t", kivOp fun t _ => okCI2T t),
   ("cr2t", kvecOp okCR2T),
   ("t2cr", kvecOp okT2CR),
